@@ -56,6 +56,8 @@ type nestEnv struct {
 	prog     int
 	step     int
 	b        atree.DigesterBuilder
+	force    int  // mutatePlain: 0 random, 1 always insert, 2 remove when possible
+	tiny     bool // plain values of 3..7 bytes (fine-grained walks across the inline limit)
 }
 
 func (e *nestEnv) violation(prop, what string) {
@@ -78,6 +80,10 @@ func (e *nestEnv) emitEffects() {
 }
 
 func (e *nestEnv) plain(prof int) hx.TV {
+	if e.tiny {
+		e.nextPay++
+		return hx.TV{Size: uint32(3 + e.rng.Intn(5)), Pay: e.nextPay}
+	}
 	maxInl := (e.T - 21) / 2
 	var size uint32
 	switch prof {
@@ -263,6 +269,12 @@ func runNestedProgram(e *nestEnv, nOps int) {
 			e.opCommitReload()
 		case r < 92:
 			e.opPop()
+		case r < 96:
+			e.opRefetch()
+		case r < 98:
+			e.opReopen()
+		case r < 100 && e.step%3 == 0:
+			e.opBoundaryWalk()
 		default:
 			e.opReadBack()
 		}
@@ -373,6 +385,11 @@ func (e *nestEnv) mutatePlain(n *node, prop string) {
 				plainIdx = append(plainIdx, i)
 			}
 		}
+		if e.force == 1 {
+			r = 0
+		} else if e.force == 2 {
+			r = 9
+		}
 		switch {
 		case r < 5 || len(plainIdx) == 0:
 			v := e.plain(prof)
@@ -428,7 +445,7 @@ func (e *nestEnv) mutatePlain(n *node, prop string) {
 		}
 	}
 	sort.Slice(plainKeys, func(i, j int) bool { return plainKeys[i].Pay < plainKeys[j].Pay })
-	if e.rng.Intn(10) < 6 || len(plainKeys) == 0 {
+	if e.force == 1 || (e.force == 0 && e.rng.Intn(10) < 6) || len(plainKeys) == 0 {
 		k := hx.TV{Size: 9, Pay: uint64(100 + e.rng.Intn(80))}
 		if ex, ok := n.kv[k]; ok && ex.child != nil {
 			return
@@ -574,6 +591,337 @@ func (e *nestEnv) killDescendants(n *node) {
 		if !x.live {
 			x.parent = nil
 		}
+	}
+}
+
+// adopt replaces the handle of the container that value v (possibly wrapped) denotes by v itself:
+// from now on the program works with the handle the library just handed out.
+func (e *nestEnv) adopt(v atree.Value, want *node, how string) bool {
+	for {
+		sv, ok := v.(hx.SomeValue)
+		if !ok {
+			break
+		}
+		v = sv.V
+	}
+	switch x := v.(type) {
+	case *atree.Array:
+		if want.kind != 'a' || x.ValueID().String() != want.vid {
+			e.violation("C10", fmt.Sprintf("%s: expected container %d (%s), got array %s", how, want.h, want.vid, x.ValueID()))
+			return false
+		}
+		want.arr = x
+	case *atree.OrderedMap:
+		if want.kind != 'm' || x.ValueID().String() != want.vid {
+			e.violation("C10", fmt.Sprintf("%s: expected container %d (%s), got map %s", how, want.h, want.vid, x.ValueID()))
+			return false
+		}
+		want.mp = x
+	default:
+		e.violation("C10", fmt.Sprintf("%s: expected container %d, got %T", how, want.h, v))
+		return false
+	}
+	return true
+}
+
+func (e *nestEnv) sortedKeys(p *node) []hx.TV {
+	keys := make([]hx.TV, 0, len(p.kv))
+	for k := range p.kv {
+		keys = append(keys, k)
+	}
+	sort.Slice(keys, func(i, j int) bool { return keys[i].Pay < keys[j].Pay })
+	return keys
+}
+
+// getChild fetches the child at slot i / key k of p through the parent (Array.Get / OrderedMap.Get)
+// and adopts the new handle.
+func (e *nestEnv) getChildArr(p *node, i int) bool {
+	c := p.elems[i].child
+	e.w.L("OP aget h=%d i=%d", p.h, i)
+	v, err := p.arr.Get(uint64(i))
+	e.w.L("OBS %s", obsErr(err))
+	e.emitEffects()
+	if err != nil {
+		e.violation("C10", fmt.Sprintf("Get(%d) on container %d failed: %v", i, p.h, err))
+		return false
+	}
+	return e.adopt(v, c, fmt.Sprintf("Get(%d) on container %d", i, p.h))
+}
+
+func (e *nestEnv) getChildMap(p *node, k hx.TV) bool {
+	c := p.kv[k].child
+	e.w.L("OP mget h=%d k=%s", p.h, e.keyStr(p, k))
+	v, err := p.mp.Get(hx.CompareKey, hx.HashInput, k)
+	e.w.L("OBS %s", obsErr(err))
+	e.emitEffects()
+	if err != nil {
+		e.violation("C10", fmt.Sprintf("Get(%d) on container %d failed: %v", k.Pay, p.h, err))
+		return false
+	}
+	return e.adopt(v, c, fmt.Sprintf("Get(key %d) on container %d", k.Pay, p.h))
+}
+
+func hasChild(n *node) bool {
+	for _, v := range n.elems {
+		if v.child != nil {
+			return true
+		}
+	}
+	for _, v := range n.kv {
+		if v.child != nil {
+			return true
+		}
+	}
+	return false
+}
+
+// opRefetch: C10 "a handle obtained on insertion, lookup or mutable iteration".  Obtains new handles
+// for nested containers by lookup in the parent or by a mutable iteration over the parent, and
+// continues with them.  One current handle per container: a child's callback is bound to the handle
+// OBJECT of its parent, so after a container has been fetched again everything nested in it is
+// fetched again through the new handle (otherwise the old parent handle stays in use behind the
+// scenes: that is known finding F2b, exercised by the dualhandle stream).
+func (e *nestEnv) opRefetch() {
+	p := e.pickContainer(func(n *node) bool { return hasChild(n) })
+	if p == nil {
+		return
+	}
+	iterate := e.rng.Intn(2) == 0
+	if !iterate {
+		e.st.Hit("refetch-get")
+		if p.kind == 'a' {
+			var idx []int
+			for i, v := range p.elems {
+				if v.child != nil {
+					idx = append(idx, i)
+				}
+			}
+			i := idx[e.rng.Intn(len(idx))]
+			if e.getChildArr(p, i) {
+				e.refetchBelow(p.elems[i].child)
+			}
+		} else {
+			var keys []hx.TV
+			for _, k := range e.sortedKeys(p) {
+				if p.kv[k].child != nil {
+					keys = append(keys, k)
+				}
+			}
+			k := keys[e.rng.Intn(len(keys))]
+			if e.getChildMap(p, k) {
+				e.refetchBelow(p.kv[k].child)
+			}
+		}
+		return
+	}
+	e.refetchIterate(p)
+}
+
+// refetchIterate runs a mutable iteration over p: every child met gets a new handle (the trace
+// records it as one lookup per child: the iterator installs the same callback as Get does).
+func (e *nestEnv) refetchIterate(p *node) {
+	e.st.Hit("refetch-iterate-" + string(p.kind))
+	type met struct {
+		i int
+		k hx.TV
+		v atree.Value
+	}
+	var seen []met
+	var err error
+	if p.kind == 'a' {
+		i := 0
+		err = p.arr.Iterate(func(v atree.Value) (bool, error) {
+			if i < len(p.elems) && p.elems[i].child != nil {
+				seen = append(seen, met{i: i, v: v})
+			}
+			i++
+			return true, nil
+		})
+	} else {
+		err = p.mp.Iterate(hx.CompareKey, hx.HashInput, func(k, v atree.Value) (bool, error) {
+			kt, _ := k.(hx.TV)
+			if sv, ok := p.kv[kt]; ok && sv.child != nil {
+				seen = append(seen, met{k: kt, v: v})
+			}
+			return true, nil
+		})
+	}
+	if err != nil {
+		e.violation("C13", fmt.Sprintf("mutable iteration over container %d failed: %v", p.h, err))
+		return
+	}
+	nChildren := 0
+	for _, v := range p.elems {
+		if v.child != nil {
+			nChildren++
+		}
+	}
+	for _, v := range p.kv {
+		if v.child != nil {
+			nChildren++
+		}
+	}
+	if len(seen) != nChildren {
+		e.violation("C13", fmt.Sprintf("mutable iteration over container %d met %d of its %d child containers", p.h, len(seen), nChildren))
+		return
+	}
+	for _, m := range seen {
+		if p.kind == 'a' {
+			e.w.L("OP aget h=%d i=%d", p.h, m.i)
+			e.w.L("OBS ok")
+			e.emitEffects()
+			if e.adopt(m.v, p.elems[m.i].child, fmt.Sprintf("mutable iteration over container %d at %d", p.h, m.i)) {
+				e.refetchBelow(p.elems[m.i].child)
+			}
+		} else {
+			e.w.L("OP mget h=%d k=%s", p.h, e.keyStr(p, m.k))
+			e.w.L("OBS ok")
+			e.emitEffects()
+			if e.adopt(m.v, p.kv[m.k].child, fmt.Sprintf("mutable iteration over container %d at key %d", p.h, m.k.Pay)) {
+				e.refetchBelow(p.kv[m.k].child)
+			}
+		}
+	}
+}
+
+// refetchBelow re-fetches, top-down, every container nested in n.
+func (e *nestEnv) refetchBelow(n *node) bool {
+	if n.kind == 'a' {
+		for i, v := range n.elems {
+			if v.child != nil {
+				if !e.getChildArr(n, i) || !e.refetchBelow(v.child) {
+					return false
+				}
+			}
+		}
+		return true
+	}
+	for _, k := range e.sortedKeys(n) {
+		if c := n.kv[k].child; c != nil {
+			if !e.getChildMap(n, k) || !e.refetchBelow(c) {
+				return false
+			}
+		}
+	}
+	return true
+}
+
+// opReopen commits and CONTINUES on a brand-new storage over the same ledger: every top-level
+// container is reopened by its root ID, every nested one fetched again through its parent.
+// (C10 "persisted by the next commit", C03, C08: the program goes on with what the registers say.)
+func (e *nestEnv) opReopen() {
+	e.w.L("COMMIT workers=2")
+	err := e.ps.FastCommit(2)
+	e.w.L("OBS %s", obsErr(err))
+	if err != nil {
+		e.violation("C10", "commit failed: "+err.Error())
+		return
+	}
+	e.st.Hit("reopen")
+	tops := append([]*node{e.root}, e.detached...)
+	ids := make([]atree.SlabID, len(tops))
+	for i, n := range tops {
+		ids[i] = n.vidSlabID()
+	}
+	e.w.L("REOPEN")
+	e.ps = hx.NewStorage(e.ledger)
+	e.rec = hx.NewRecStorage(e.ps)
+	for i, n := range tops {
+		var err error
+		if n.kind == 'a' {
+			n.arr, err = atree.NewArrayWithRootID(e.rec, ids[i])
+		} else {
+			n.mp, err = atree.NewMapWithRootID(e.rec, ids[i], atree.NewDefaultDigesterBuilder())
+		}
+		if err != nil {
+			e.violation("C03", fmt.Sprintf("container %d cannot be reopened by its root ID after commit: %v", n.h, err))
+			e.st.HarnessErr = "reopen failed (see violation)"
+			return
+		}
+	}
+	e.rec.Reset()
+	for _, n := range tops {
+		if !e.refetchBelow(n) {
+			e.st.HarnessErr = "re-fetch after reopen failed (see violation)"
+			return
+		}
+	}
+	e.opReadBack()
+	e.verifyRoot("after reopening on a fresh storage")
+}
+
+// opBoundaryWalk: C10 "children growing and shrinking across the inline limit in both directions".
+// A nested container is grown with tiny values until it leaves its parent slab, its handle is
+// (usually) obtained again while it is standalone - by lookup or by mutable iteration over the
+// parent - and it is then shrunk, a few bytes at a time, until it is inlined again.
+func (e *nestEnv) opBoundaryWalk() {
+	c := e.pickContainer(func(n *node) bool { return n != e.root && n.parent != nil && e.attached(n) })
+	if c == nil {
+		return
+	}
+	inl := func() bool {
+		if c.kind == 'a' {
+			return c.arr.Inlined()
+		}
+		return c.mp.Inlined()
+	}
+	nv := len(e.st.Violations)
+	ok := func() bool { return len(e.st.Violations) == nv && e.st.HarnessErr == "" }
+	e.tiny = true
+	defer func() { e.tiny, e.force = false, 0 }()
+	e.force = 1
+	for i := 0; i < 400 && inl() && ok(); i++ {
+		e.mutatePlain(c, "C10")
+	}
+	if inl() || !ok() {
+		return
+	}
+	for i := e.rng.Intn(4); i > 0 && ok(); i-- {
+		e.mutatePlain(c, "C10")
+	}
+	e.st.Hit(fmt.Sprintf("boundary-walk-%c-in-%c", c.kind, c.parent.kind))
+	switch e.rng.Intn(3) {
+	case 0:
+		p := c.parent
+		if p.kind == 'a' {
+			for i, v := range p.elems {
+				if v.child == c && e.getChildArr(p, i) {
+					e.refetchBelow(c)
+				}
+			}
+		} else {
+			for _, k := range e.sortedKeys(p) {
+				if p.kv[k].child == c && e.getChildMap(p, k) {
+					e.refetchBelow(c)
+				}
+			}
+		}
+	case 1:
+		e.refetchIterate(c.parent)
+	}
+	e.force = 2
+	hasPlain := func() bool {
+		for _, v := range c.elems {
+			if v.child == nil {
+				return true
+			}
+		}
+		for _, v := range c.kv {
+			if v.child == nil {
+				return true
+			}
+		}
+		return false
+	}
+	for i := 0; i < 800 && !inl() && hasPlain() && ok(); i++ {
+		e.mutatePlain(c, "C10")
+	}
+	for i := 0; i < 3 && hasPlain() && ok(); i++ {
+		e.mutatePlain(c, "C10")
+	}
+	if ok() {
+		e.opReadBack()
+		e.verifyRoot(fmt.Sprintf("after walking container %d across the inline limit", c.h))
 	}
 }
 
